@@ -49,6 +49,7 @@ type exec struct {
 	status   string
 
 	frozen, frozenSnap *document.Table // original of a CopyTable whose copy became the table under test
+	inDoc              *document.Table // the table that checkSaved has found in / put into the body of doc
 
 	structOK, mergeOK, nestedOK, rejectedOOR, rollbacks, copyRollbacks, copies int
 	oor                                                                        bool // an argument of the current op was outside the table
@@ -520,6 +521,14 @@ func (x *exec) deleteRows(s, e int, single bool) {
 		return
 	}
 	x.structOK++
+	if s > 0 && e+1 < sh.R && hasContinue(&pre.Rows[e+1]) {
+		for j := range pre.Rows[s-1].Cells {
+			if vm(&pre.Rows[s-1].Cells[j]) != "" {
+				x.res.Label("delrows:continuation-row-moves-under-a-row-with-a-merged-cell")
+				break
+			}
+		}
+	}
 	x.checkInvariants(cands)
 	if x.done() {
 		return
